@@ -33,7 +33,7 @@ CLAIMS = {
               "exactly the original elements (multiset) in the documented order, nothing is dropped, capacities of sized elements add "
               "up, merge succeeds exactly for parts that are contiguous by their observed addresses and restores the whole, and no "
               "operation changes contents, length, capacity or buffer of a part it does not involve. The memory-level half (is-last "
-              "logic against split blocks) is contributed by the arena component through checks_arena.split_blocks_clause.",
+              "logic against split blocks) is contributed by the arena component through checks_arena.split_parts_clause.",
               "DESIGN.md section 4, C16"),
 }
 
